@@ -88,6 +88,43 @@ def arithRepr (op : BinOp) (t : Fmt) (r : Rounding) (o : Overflow) (x y : Fmt) (
 /-- flags of the result's own store (from a clean status). -/
 def arithFlags (t : Fmt) (k : Int) : Bool × Bool := (decide (t.hi < k), decide (k < t.lo))
 
+/-- expression trees over stored operands (`+ - *`, optimal sizing at every node). -/
+inductive Expr
+  | leaf (f : Fmt) (c : Int)
+  | add (l r : Expr)
+  | sub (l r : Expr)
+  | mul (l r : Expr)
+deriving Repr
+
+/-- exact mathematical value of a tree. -/
+def Expr.value : Expr → Rat
+  | .leaf f c => valueOf f c
+  | .add l r => l.value + r.value
+  | .sub l r => l.value - r.value
+  | .mul l r => l.value * r.value
+
+/-- fixed-point evaluation with optimal sizing (config `(rd, o)` at every node). `none` = format error. -/
+def Expr.eval (rd : Rounding) (o : Overflow) : Expr → Option (Fmt × Int)
+  | .leaf f c => some (f, c)
+  | .add l r => do
+      let (x, a) ← l.eval rd o; let (y, b) ← r.eval rd o
+      let t ← resultFmt .optimal .add x y
+      pure (t, arithRaw .add t rd o x y a b)
+  | .sub l r => do
+      let (x, a) ← l.eval rd o; let (y, b) ← r.eval rd o
+      let t ← resultFmt .optimal .sub x y
+      pure (t, arithRaw .sub t rd o x y a b)
+  | .mul l r => do
+      let (x, a) ← l.eval rd o; let (y, b) ← r.eval rd o
+      let t ← resultFmt .optimal .mul x y
+      pure (t, arithRaw .mul t rd o x y a b)
+
+def Expr.hasSigned : Expr → Bool
+  | .leaf f _ => f.signed
+  | .add l r => l.hasSigned || r.hasSigned
+  | .sub l r => l.hasSigned || r.hasSigned
+  | .mul l r => l.hasSigned || r.hasSigned
+
 /-- unary minus / plus / abs: `Fxp(-self.val, same format, raw=True)` with the **default** config
 (trunc, saturate). -/
 def negM (f : Fmt) (c : Int) : Int := sat f (-c)
